@@ -171,6 +171,10 @@ func (c Collection) ToFloat64() (float64, error) {
 		return float64(val.GetValue()), nil
 	case *dtpb.UnsignedInt:
 		return float64(val.GetValue()), nil
+	case *dtpb.Decimal:
+		if d, err := decimal.NewFromString(val.GetValue()); err == nil {
+			return d.InexactFloat64(), nil
+		}
 	}
 	return 0, c.convertErr(v, "float64")
 }
